@@ -14,6 +14,10 @@ the visited extents (start, end, kind), the deviation tags and a summary of the 
 A difference is a violation dict like those of c05spec: `nofail=True` unless one of the walkers rejects the file (then the history
 that produced the file is the failing input).
 
+Files the Python walker cannot decode at all (new-style groups: h5spec raises Unsupported) are not part of this comparison: for them the
+Coq walker is the JUDGE (coq_judge -> Model/WalkJudgeTie.v walkj_obs; the gate is tools/props/c05.py judge_dense: accepted, walk_ok,
+deviation tags listed, tree summary incl. the link lists of the dense groups == the logical oracle).
+
 Use:  t = WalkTie(ctx); t.offer(case, res) for every judged file (res = c05spec.walk / h5spec.walk result); t.finish() ->
 (violations, coverage);  run_walk(ctx, files) does the three steps for a list of (case, res).
 """
